@@ -2,7 +2,7 @@ CONSTANTS MaxRows = 2
           MaxRowsY = 2
           MaxSteps = 2
           NKeys = 6
-          Stride = 32
+          Stride = 64
           Gen = FALSE
           Emit = "none"
           Variant = "plain"
